@@ -8,6 +8,8 @@ from .. import bits, fields, paths
 from ..core import FUNC, call_attr, calls_in, const, dotted, is_const, kwarg, norm, slice_parts, text, walk_local
 
 EXPLANATION = [
+    'C19.enum-field-defaults: every avdtp message field annotated with an enum type and given a default has an enum member as default (messages are formatted through `.name` before they are sent).',
+    "C19.stream-table: Protocol.create_stream constructs a Stream only under the test that the source's seid is not in self.streams (never as an eagerly evaluated default).",
     'C19.free-label: Protocol.start_transaction stores a new future into transaction_results[label] only under the test that this slot is None.',
     'C19.shift-amount: no shift in the profile protocol modules has an amount that contains a data element (`hi << 16 + lo` for `hi << 16 | lo`).',
     'C19.transaction-permits: every statement of avdtp.Protocol that clears a transaction slot releases the transaction semaphore in the same block: a refused command returns its permit like an accepted one.',
@@ -730,7 +732,51 @@ def free_label(ctx):
         R.check(ok, rule, 'bumble.avdtp.Protocol.start_transaction | slot is free', f'`{slot} is None` tested', f'`{norm(s_)[:60]}` takes the label without testing that its slot is free: the future of a transaction still waiting under that label is overwritten - its caller never gets its response (which resolves the new transaction instead)', p.loc(s_))
 
 
+def stream_table(ctx):
+    """Protocol.create_stream creates a Stream only when the source has none: Stream.__init__ takes over
+    `local_endpoint.stream`, so a Stream constructed just to be thrown away (an eager setdefault default) detaches the
+    stream that is actually driven from its end point."""
+    R, p = ctx.r, ctx.p
+    rule = 'C19.stream-table'
+    fn = p.find('bumble.avdtp.Protocol.create_stream')
+    if fn is None:
+        R.bad(rule, 'bumble.avdtp.Protocol.create_stream', 'anchor missing')
+        return
+    ctors = [c for c in ast.walk(fn) if isinstance(c, ast.Call) and call_attr(c) == 'Stream']
+    R.check(len(ctors) == 1, rule, 'bumble.avdtp.Protocol.create_stream | Stream(...)', 'one construction', f'{len(ctors)} constructions', p.loc(fn))
+    for c in ctors:
+        g = [(norm(t), pol) for t, pol in paths.flat_guards(c, stop=fn)]
+        guarded = any(('in self.streams' in t and ((' not in ' in t) == pol)) or ('self.streams.get(' in t) for t, pol in g)
+        in_default = any(isinstance(a, ast.Call) and call_attr(a) in ('setdefault', 'get') and any(x is c for arg in a.args for x in ast.walk(arg)) for a in ast.walk(fn))
+        R.check(guarded and not in_default, rule, 'bumble.avdtp.Protocol.create_stream | construction guarded', 'only when the source has no stream yet', 'a Stream is constructed even when the source already has one (its constructor re-points source.stream at the new object): on a second configuration of the same end point the stream that is driven is no longer the end point\'s - the source stays IDLE while the sink streams', p.loc(c))
+
+
+def enum_field_defaults(ctx):
+    """A message field declared with an enum type has an enum member as default: messages are formatted for the debug log
+    (through `.name`) before they are sent, at every log level, so a plain integer default makes str(message) raise and the
+    reject built with the default is never sent."""
+    R, p = ctx.r, ctx.p
+    rule = 'C19.enum-field-defaults'
+    enums = {ci.name for cn, ci in p.classes.items() if any('Enum' in b.split('.')[-1] or 'Flag' in b.split('.')[-1] for x in p.mro(cn) for b in x.bases)}
+    n = 0
+    for cn, ci in sorted(p.classes.items()):
+        if not cn.startswith('bumble.avdtp.'):
+            continue
+        for k, ann in ci.annots.items():
+            t = norm(ann).strip('"\'').split('.')[-1]
+            if t not in enums or k not in ci.assigns:
+                continue
+            n += 1
+            v = ci.assigns[k]
+            d = v if isinstance(v, ast.Constant) else next((kw.value for kw in getattr(v, 'keywords', []) if kw.arg == 'default'), None)
+            plain = isinstance(d, ast.Constant) and isinstance(d.value, int) and not isinstance(d.value, bool)
+            R.check(not plain, rule, f'{cn}.{k}', f'default is a {t}', f'{ci.name}.{k} is a {t} with the plain integer default {d.value if plain else ""}: formatting a message built with the default (`.name` on an int) raises inside send_message before anything is written - the refusal is never sent and the peer\'s transaction stays open', p.loc(v))
+    R.check(n >= 4, rule, 'bumble.avdtp | enum-typed fields with defaults', f'{n}', f'only {n} found')
+
+
 RULES = [
+    ('C19.enum-field-defaults', enum_field_defaults),
+    ('C19.stream-table', stream_table),
     ('C19.free-label', free_label),
     ('C19.shift-amount', shift_amount_rule),
     ('C19.transaction-permits', transaction_permits),
